@@ -16,6 +16,10 @@ REPO_ROOT = os.path.realpath(os.environ.get("VERIF_REPO_ROOT", "/repo"))
 VERIF_ROOT = os.path.dirname(os.path.dirname(os.path.realpath(__file__)))
 
 
+class Found(Exception):
+    "raised inside a Hypothesis test when an unlisted failure bucket was hit"
+
+
 class Fail:
     __slots__ = ("bucket", "detail")
 
